@@ -300,6 +300,102 @@ fn trace_M<T, const MM: usize, const NN: usize>(seed: u64, make: fn(&Log) -> T, 
     Trace { log: l, orders, next_draw: rng.fingerprint() }
 }
 
+/// A member that cancels (twice) the oldest order there is: several members of one set then queue
+/// cancellations of the same order - every one of them is an instruction of its own.
+pub struct ProbeC {
+    tag: u32,
+    log: Log,
+}
+impl Agent for ProbeC {
+    fn update<R: RngCore>(&mut self, env: &mut Env, rng: &mut R) {
+        let fp = fp_env(env);
+        let d = rng.next_u32() as u64;
+        self.log.borrow_mut().push((self.tag, fp, d));
+        if !env.get_orders().is_empty() {
+            env.cancel_order(0);
+            env.cancel_order(0);
+        }
+    }
+}
+pub struct MProbeC {
+    tag: u32,
+    log: Log,
+}
+impl MarketAgent for MProbeC {
+    fn update<R: RngCore, const M: usize, const N: usize>(&mut self, env: &mut MarketEnv<M, N>, rng: &mut R) {
+        let fp = fp_any(env);
+        let d = rng.next_u32() as u64;
+        self.log.borrow_mut().push((self.tag, fp, d));
+        if !env.get_orders(0).is_empty() {
+            env.cancel_order((0, 0));
+            env.cancel_order((0, 0));
+        }
+    }
+}
+
+// Hand-declared sets with LIBRARY agents among the members (a population with activity rate 0 still takes its
+// draws) and with members that queue cancellations of one and the same order.
+#[derive(AgentSet)]
+pub struct LibSetS {
+    a: ProbeA,
+    idle: bourse_de::agents::RandomAgents,
+    c1: ProbeC,
+    c2: ProbeC,
+    busy: bourse_de::agents::RandomAgents,
+    b: ProbeB,
+}
+fn make_LibSetS(log: &Log) -> LibSetS {
+    LibSetS {
+        a: ProbeA::new(1, log),
+        idle: bourse_de::agents::RandomAgents::new(3, (10, 20), (1, 3), 1, 0.0),
+        c1: ProbeC { tag: 2, log: log.clone() },
+        c2: ProbeC { tag: 3, log: log.clone() },
+        busy: bourse_de::agents::RandomAgents::new(2, (10, 20), (1, 3), 1, 1.0),
+        b: ProbeB::new(4, log),
+    }
+}
+fn derived_LibSetS<R: RngCore>(x: &mut LibSetS, env: &mut Env, rng: &mut R) {
+    AgentSet::update(x, env, rng);
+}
+fn hand_LibSetS<R: RngCore>(x: &mut LibSetS, env: &mut Env, rng: &mut R) {
+    x.a.update(env, rng);
+    x.idle.update(env, rng);
+    x.c1.update(env, rng);
+    x.c2.update(env, rng);
+    x.busy.update(env, rng);
+    x.b.update(env, rng);
+}
+#[derive(MarketAgentSet)]
+pub struct LibSetM {
+    a: MProbeA,
+    idle: bourse_de::agents::RandomMarketAgents,
+    c1: MProbeC,
+    c2: MProbeC,
+    busy: bourse_de::agents::RandomMarketAgents,
+    b: MProbeB,
+}
+fn make_LibSetM(log: &Log) -> LibSetM {
+    LibSetM {
+        a: MProbeA::new(1, log),
+        idle: bourse_de::agents::RandomMarketAgents::new(0, 3, (10, 20), (1, 3), 1, 0.0),
+        c1: MProbeC { tag: 2, log: log.clone() },
+        c2: MProbeC { tag: 3, log: log.clone() },
+        busy: bourse_de::agents::RandomMarketAgents::new(0, 2, (10, 20), (1, 3), 1, 1.0),
+        b: MProbeB::new(4, log),
+    }
+}
+fn derived_LibSetM<R: RngCore, const MM: usize, const NN: usize>(x: &mut LibSetM, env: &mut MarketEnv<MM, NN>, rng: &mut R) {
+    MarketAgentSet::update(x, env, rng);
+}
+fn hand_LibSetM<R: RngCore, const MM: usize, const NN: usize>(x: &mut LibSetM, env: &mut MarketEnv<MM, NN>, rng: &mut R) {
+    x.a.update(env, rng);
+    x.idle.update(env, rng);
+    x.c1.update(env, rng);
+    x.c2.update(env, rng);
+    x.busy.update(env, rng);
+    x.b.update(env, rng);
+}
+
 include!(concat!(env!("OUT_DIR"), "/c20_gen.rs"));
 
 pub fn c20(tier: &str) -> i32 {
@@ -350,6 +446,14 @@ pub fn c20(tier: &str) -> i32 {
             ));
         }
     };
+    for &seed in &seeds {
+        let d = trace_S(seed, make_LibSetS, derived_LibSetS);
+        let h = trace_S(seed, make_LibSetS, hand_LibSetS);
+        judge("AgentSet", "probe, RandomAgents(rate 0), cancelling probe, cancelling probe, RandomAgents(rate 1), probe", seed, d, h);
+        let d = trace_M::<_, 2, 3>(seed, make_LibSetM, derived_LibSetM);
+        let h = trace_M::<_, 2, 3>(seed, make_LibSetM, hand_LibSetM);
+        judge("MarketAgentSet", "probe, RandomMarketAgents(rate 0), cancelling probe, cancelling probe, RandomMarketAgents(rate 1), probe", seed, d, h);
+    }
     run_all_S(&seeds, &mut judge);
     run_all_M(&seeds, &mut judge);
     out.set("states", json!(programs));
@@ -358,7 +462,7 @@ pub fn c20(tier: &str) -> i32 {
     out.set("programs", json!(2 * N_SHAPES));
     out.set("seeds", json!(base_seeds));
     out.set("environment_configurations", json!(cfgs.iter().map(|c| cfg_text(c << 32)).collect::<Vec<_>>()));
-    out.set("rule", json!("every word of length 1..4 over field kinds {A, B, N(ested derived set)} plus 14 shapes of 5..8 fields and 17 shapes holding nested sets of three and five members (larger than the set they sit in), and every word of length 1..3 plus two long shapes re-declared with six syntactic decorations (field attributes incl. #[rustfmt::skip] / #[cfg(all())] / doc comments, struct attributes around the derive, mixed visibilities, type paths and parenthesised types, raw identifiers, a macro_rules! template passing the member types as `ty` fragments), for both derive macros (the multi-asset one on MarketEnv<2,3> and, for the shapes of up to three members, also on MarketEnv<1,1> and on MarketEnv<3,0> - no published levels at all); shapes holding zero-sized members (unit structs) and a nested set made only of such members; run with two generators (the Xoroshiro128** of the library runner and one answering next_u32 / next_u64 / fill_bytes from three independent streams, the probes drawing through all three) under several environment configurations (step sizes 1000, 1, 2, 8; 0, 1 or 3 instructions already waiting in the queue before each update; update-step-update and update-update-step-update); log of (tag, environment fingerprint, draw), final orders and next generator draw compared with the flattened hand-written calls"));
+    out.set("rule", json!("every word of length 1..4 over field kinds {A, B, N(ested derived set)} plus 14 shapes of 5..8 fields and 17 shapes holding nested sets of three and five members (larger than the set they sit in), and every word of length 1..3 plus two long shapes re-declared with six syntactic decorations (field attributes incl. #[rustfmt::skip] / #[cfg(all())] / doc comments, struct attributes around the derive, mixed visibilities, type paths and parenthesised types, raw identifiers, a macro_rules! template passing the member types as `ty` fragments), for both derive macros (the multi-asset one on MarketEnv<2,3> and, for the shapes of up to three members, also on MarketEnv<1,1> and on MarketEnv<3,0> - no published levels at all); a hand-declared set holding library agents (a random population with activity rate 0, which still takes its draws, and one with rate 1) and two members that each queue cancellations of one and the same order; shapes holding zero-sized members (unit structs) and a nested set made only of such members; run with two generators (the Xoroshiro128** of the library runner and one answering next_u32 / next_u64 / fill_bytes from three independent streams, the probes drawing through all three) under several environment configurations (step sizes 1000, 1, 2, 8; 0, 1 or 3 instructions already waiting in the queue before each update; update-step-update and update-update-step-update); log of (tag, environment fingerprint, draw), final orders and next generator draw compared with the flattened hand-written calls"));
     for s in samples {
         out.push("samples", s);
     }
